@@ -30,9 +30,9 @@ func init() {
 }
 
 type aFrame struct {
-	offX, offY, fw, fh           int
+	offX, offY, fw, fh             int
 	blendNone, disposeBG, hasAlpha bool
-	pix                          []byte // fw*fh*4 RGBA
+	pix                            []byte // fw*fh*4 RGBA
 }
 
 type aCase struct {
@@ -44,6 +44,8 @@ type aCase struct {
 	subOrigin int
 	// k for animreset (number of NextFrame calls before Reset); -1: none
 	resetAt int
+	// number of "draw the previous frame again" moves (random generator)
+	repeats int
 }
 
 func (c *aCase) framesArg() string {
@@ -213,6 +215,8 @@ func splitLean(l string) (impl, spec, lib string, ok bool) {
 
 var animAlphaSet = []byte{0, 1, 127, 128, 254, 255}
 
+var animTranslucent = []byte{1, 127, 128, 254}
+
 func genPixels(r *RNG, n int, mode int) []byte {
 	p := make([]byte, 4*n)
 	flatA := animAlphaSet[r.Intn(len(animAlphaSet))]
@@ -258,6 +262,39 @@ func genAnimCase(r *RNG, maxCanvas, maxFrames int, consistent bool) *aCase {
 	n := 1 + r.Intn(maxFrames)
 	for i := 0; i < n; i++ {
 		var f aFrame
+		if i > 0 && r.Chance(1, 6) {
+			// "draw the previous frame again": same pixels at the same (or an overlapping) offset,
+			// BlendAlpha over a canvas that still holds them (previous frame DisposeNone), with
+			// translucent alphas — the source pixel then EQUALS the canvas pixel below it, and
+			// blending must still accumulate coverage.
+			p := &c.frames[i-1]
+			switch r.Intn(3) {
+			case 1: // per-pixel translucent alphas
+				for k := 3; k < len(p.pix); k += 4 {
+					p.pix[k] = animTranslucent[r.Intn(len(animTranslucent))]
+				}
+			case 2: // one flat translucent pixel value (coincides under any shift)
+				a := animTranslucent[r.Intn(len(animTranslucent))]
+				for k := 4; k < len(p.pix); k += 4 {
+					copy(p.pix[k:k+3], p.pix[:3])
+				}
+				for k := 3; k < len(p.pix); k += 4 {
+					p.pix[k] = a
+				}
+			}
+			p.hasAlpha = p.hasAlpha || !allOpaque(p.pix)
+			p.disposeBG = false
+			f = *p
+			f.pix = append([]byte(nil), p.pix...)
+			f.blendNone, f.disposeBG = false, r.Chance(1, 4)
+			if r.Chance(1, 3) {
+				f.offX += r.Intn(3) - 1
+				f.offY += r.Intn(3) - 1
+			}
+			c.frames = append(c.frames, f)
+			c.repeats++
+			continue
+		}
 		switch r.Intn(8) {
 		case 0, 1: // exactly the canvas: candidates for the full-frame key-frame rule
 			f.offX, f.offY, f.fw, f.fh = 0, 0, c.w, c.h
@@ -323,6 +360,22 @@ func (o frameOpt) frame(seq int) aFrame {
 	p := make([]byte, 4*n)
 	for i := 0; i < n; i++ {
 		p[4*i], p[4*i+1], p[4*i+2], p[4*i+3] = byte(40*seq+10*i+7), byte(200-30*seq-i), byte(seq*90+i*3), o.alpha
+	}
+	return aFrame{o.offX, o.offY, o.fw, o.fh, o.bn, o.db, o.hasAlpha, p}
+}
+
+// frameFixed: like frame, but the pixels do not depend on the frame's position in the sequence
+// (flat: nor on the pixel index), so that a later frame can carry exactly the pixels an earlier
+// one left on the canvas.
+func (o frameOpt) frameFixed(flat bool) aFrame {
+	n := o.fw * o.fh
+	p := make([]byte, 4*n)
+	for i := 0; i < n; i++ {
+		if flat {
+			p[4*i], p[4*i+1], p[4*i+2], p[4*i+3] = 200, 40, 90, o.alpha
+		} else {
+			p[4*i], p[4*i+1], p[4*i+2], p[4*i+3] = byte(10*i+7), byte(200-i), byte(i*3), o.alpha
+		}
 	}
 	return aFrame{o.offX, o.offY, o.fw, o.fh, o.bn, o.db, o.hasAlpha, p}
 }
@@ -421,6 +474,9 @@ func (b *animBatch) flush() {
 		}
 		rep.Count("kind:" + c.kind)
 		rep.Count(fmt.Sprintf("frames:%d", len(c.frames)))
+		if c.repeats > 0 {
+			rep.Count("random:with-repeated-frame")
+		}
 		nontrivial := len(c.frames) >= 2
 		rep.Eval(nontrivial, []byte(lines[li]))
 		if g.line == "panic" {
@@ -596,7 +652,7 @@ func suiteBlend(rep *Report) error {
 
 func suiteAnimDec(rep *Report) error {
 	rich := rep.Tier == "thorough"
-	rep.Rule = "animations built programmatically (frames are *image.NRGBA at origin 0,0): (1) exhaustive 2x2 canvas, 2 frames over offsets {-2,0,2}^2 x sizes {1x1,2x2,3x3,2x1} x blend x dispose x (alpha 255 flag off/on, 128, 0) and 3 frames over a reduced grid; (2) random canvases up to 16x16, up to 12 frames, offsets -3..canvas+2, sizes 0..canvas+2, per-pixel alphas from {0,1,127,128,254,255} or random, HasAlpha consistent with the pixels; (3) extreme int64 offsets; (4) NewAnimDecoder size errors; (5) a flags-lie stream (HasAlpha=false on translucent frames) compared with the model only and counted against the spec; (6) a sub-image-origin probe; every case: Go AnimDecoder snapshots vs Lean implementation model (correspondence) and vs Lean specification (C09), re-hash of all earlier snapshots after every call, Reset+replay on the same decoder, and k frames+Reset+replay vs the model; blend: all 65536 alpha pairs for 64+ channel triples plus random pixels. non-trivial = at least 2 frames"
+	rep.Rule = "animations built programmatically (frames are *image.NRGBA at origin 0,0): (1) exhaustive 2x2 canvas, 2 frames over offsets {-2,0,2}^2 x sizes {1x1,2x2,3x3,2x1} x blend x dispose x (alpha 255 flag off/on, 128, 0) and 3 frames over a reduced grid; (1b) 2 frames whose pixels do not depend on the frame number (per-index and flat), alphas {1,128,254}, offsets {(0,0),(1,0),(-1,-1)} x sizes {1x1,2x2,2x1} x blend x dispose — the second frame carries exactly the pixels the first left on the canvas; (1c) the blend grid through compositeFrame: 1x1 canvas, frame 0 = pixel d with BlendNone, frame 1 = pixel s with BlendAlpha, all 256 alphas for 24 channel triples on the s==d diagonal, with alpha^1 below, and with other channels below; (2) random canvases up to 16x16, up to 12 frames, offsets -3..canvas+2, sizes 0..canvas+2, per-pixel alphas from {0,1,127,128,254,255} or random, HasAlpha consistent with the pixels, with a 1-in-6 'draw the previous frame again' move (same pixels, same or overlapping offset, BlendAlpha over DisposeNone, alphas kept / redrawn from {1,127,128,254} / flat); (3) extreme int64 offsets; (4) NewAnimDecoder size errors; (5) a flags-lie stream (HasAlpha=false on translucent frames) compared with the model only and counted against the spec; (6) a sub-image-origin probe; every case: Go AnimDecoder snapshots vs Lean implementation model (correspondence) and vs Lean specification (C09), re-hash of all earlier snapshots after every call, Reset+replay on the same decoder, and k frames+Reset+replay vs the model; blend: all 65536 alpha pairs for 64+ channel triples plus random pixels. non-trivial = at least 2 frames"
 	b := &animBatch{rep: rep}
 	// (1) exhaustive
 	offs := [][2]int{}
@@ -632,6 +688,54 @@ func suiteAnimDec(rep *Report) error {
 		for _, f1 := range o3 {
 			for _, f2 := range o3 {
 				b.add(&aCase{w: 2, h: 2, frames: []aFrame{f0.frame(0), f1.frame(1), f2.frame(2)}, kind: "exh3", resetAt: -1})
+			}
+		}
+	}
+	// (1b) exhaustive, sequence-independent pixels with translucent alphas {1,128,254}: the second
+	// frame carries the very pixels the first one left on the canvas (source == canvas below it)
+	alphasT := []struct {
+		a  byte
+		ha bool
+	}{{1, true}, {128, true}, {254, true}}
+	oRep := frameOpts([][2]int{{0, 0}, {1, 0}, {-1, -1}}, [][2]int{{1, 1}, {2, 2}, {2, 1}}, alphasT)
+	for _, flat := range []bool{false, true} {
+		for _, f0 := range oRep {
+			for _, f1 := range oRep {
+				b.add(&aCase{w: 2, h: 2, frames: []aFrame{f0.frameFixed(flat), f1.frameFixed(flat)}, kind: "exh2same", resetAt: -1})
+			}
+		}
+	}
+	// (1c) the blend grid THROUGH compositeFrame: canvas 1x1, frame 0 puts pixel d on the canvas
+	// (BlendNone, DisposeNone), frame 1 blends pixel s over it; every alpha on the s == d diagonal,
+	// the same channels with neighbouring alphas, and different channels with the same alpha
+	{
+		var trip [][3]byte
+		for _, a := range []byte{0, 1, 128, 255} {
+			for _, bb := range []byte{0, 127, 254, 255} {
+				trip = append(trip, [3]byte{a, bb, 255 - a})
+			}
+		}
+		r := NewRNG(rep.Seed, 515151)
+		for len(trip) < 24 {
+			trip = append(trip, [3]byte{byte(r.Next()), byte(r.Next()), byte(r.Next())})
+		}
+		px := func(t [3]byte, a byte) aFrame {
+			return aFrame{0, 0, 1, 1, false, false, a != 255, []byte{t[0], t[1], t[2], a}}
+		}
+		for ti, t := range trip {
+			t2 := trip[(ti+5)%len(trip)]
+			for a := 0; a < 256; a++ {
+				for v := 0; v < 3; v++ {
+					d, sfr := px(t, byte(a)), px(t, byte(a))
+					switch v {
+					case 1:
+						d = px(t, byte(a^1))
+					case 2:
+						d = px(t2, byte(a))
+					}
+					d.blendNone = true
+					b.add(&aCase{w: 1, h: 1, frames: []aFrame{d, sfr}, kind: []string{"blend1x1:s==d", "blend1x1:alpha^1", "blend1x1:other-rgb"}[v], resetAt: -1})
+				}
 			}
 		}
 	}
